@@ -488,6 +488,8 @@ class Program:
             fn = dotted(expr.func)
             if fn and fn.split(".")[-1] == "cast" and len(expr.args) == 2:
                 return self._ann_class(f.module, expr.args[0])
+            if fn and f.is_classmethod and f.cls is not None and fn == f.self_name:
+                return f.cls  # `cls(...)` inside a classmethod
             if fn:
                 c = self.class_of_name(f.module, fn)
                 if c is not None:
@@ -532,6 +534,34 @@ class Program:
                 sl = sl.elts[0]
             return self._ann_class(mod, sl)
         return None
+
+    # ------------------------------------------------------------------ reverse call graph
+    def callers_of(self, target: FuncInfo) -> list[tuple[FuncInfo, ast.Call]]:
+        """Every resolved call site in the package that may reach `target` (class-hierarchy resolution; memoised)."""
+        rev = self.__dict__.get("_callers")
+        if rev is None:
+            rev = {}
+            for g in list(self.funcs.values()):
+                for c in ast.walk(g.node):
+                    if isinstance(c, ast.Call):
+                        try:
+                            ts = self.resolve_call(g, c)
+                        except Exception:  # noqa: BLE001 - an unresolvable call is simply no edge
+                            continue
+                        for t in ts:
+                            if isinstance(t, FuncInfo):
+                                rev.setdefault(t.qualname, []).append((g, c))
+            self.__dict__["_callers"] = rev
+        return rev.get(target.qualname, [])
+
+    def only_reached_from(self, f: FuncInfo, roots: set[str], _seen: frozenset[str] = frozenset()) -> bool:
+        """`f` is one of the root functions, or a private helper every call site of which lies in a function that is (recursively) so."""
+        if f.qualname in roots:
+            return True
+        if f.qualname in _seen or not (f.name.startswith("_") and not (f.name.startswith("__") and f.name.endswith("__"))):
+            return False
+        callers = self.callers_of(f)
+        return bool(callers) and all(self.only_reached_from(g, roots, _seen | {f.qualname}) for g, _ in callers)
 
     # ------------------------------------------------------------------ call resolution
     def resolve_call(self, f: FuncInfo, call: ast.Call) -> list["FuncInfo | str"]:
